@@ -3,25 +3,27 @@
 // `x := cryptobyte.String(y)` statement, which may sit inside a closure) becomes a decision tree
 // over a generated state record with one field per Go variable it writes:
 //
-//   Record <n>_st, setters <n>_set_<var>, <n>_zero (Go zero values),
-//   Fixpoint <n>_loop<i> fuel st   — one per `for !x.Empty() { … }` loop (explicit fuel)
-//   Definition <n> (helpers…) (params…) : outcome <n>_st
+//	Record <n>_st, setters <n>_set_<var>, <n>_zero (Go zero values),
+//	Fixpoint <n>_loop<i> fuel st   — one per `for !x.Empty() { … }` loop (explicit fuel)
+//	Definition <n> (helpers…) (params…) : outcome <n>_st
 //
 // outcome (Base/ReaderGen.v): Fail ret      — a `return` guarded by a condition that contains a read
-//                                              (the state is not observable there: cryptobyte leaves a
-//                                              partially advanced String behind a failed prefixed read)
-//                             Done ret st   — any other `return`, or the end of the fragment
-//                             NoFuel        — loop fuel exhausted (excluded by a lemma)
+//
+//	                 (the state is not observable there: cryptobyte leaves a
+//	                 partially advanced String behind a failed prefixed read)
+//	Done ret st   — any other `return`, or the end of the fragment
+//	NoFuel        — loop fuel exhausted (excluded by a lemma)
 //
 // Accepted subset (anything else ends the fragment if it is a whole statement at the top level of
 // the translated block — its text is recorded in <n>_continues — and aborts inside nested code):
-//   x := cryptobyte.String(<param or variable>)            var a, b T
-//   if <d1> || <d2> || … { return … }                      di:  !r.ReadUintN(&v)  !r.ReadUintNLengthPrefixed(&v | (*cryptobyte.String)(&v))
-//                                                               !r.CopyBytes(a[:]) !r.ReadBytes(&v, n) !r.Skip(n) !r.Empty() r.Empty()
-//                                                               !helper(&r, &v)    v <op> <int literal | math.MaxInt64>
-//   if <pure condition> { … } [else { … }]                 switch v { case <int>: … default: … }
-//   for !r.Empty() { … }                                   v = intN(w)   v = true|false   v = append(v, w)   e = &T{}
-//   return …
+//
+//	x := cryptobyte.String(<param or variable>)            var a, b T
+//	if <d1> || <d2> || … { return … }                      di:  !r.ReadUintN(&v)  !r.ReadUintNLengthPrefixed(&v | (*cryptobyte.String)(&v))
+//	                                                            !r.CopyBytes(a[:]) !r.ReadBytes(&v, n) !r.Skip(n) !r.Empty() r.Empty()
+//	                                                            !helper(&r, &v)    v <op> <int literal | math.MaxInt64>
+//	if <pure condition> { … } [else { … }]                 switch v { case <int>: … default: … }
+//	for !r.Empty() { … }                                   v = intN(w)   v = true|false   v = append(v, w)   e = &T{}
+//	return …
 package main
 
 import (
@@ -44,15 +46,16 @@ type rvar struct {
 }
 
 type rtr struct {
-	fset    *token.FileSet
-	name    string
-	params  map[string]bool
-	usedPar map[string]string // Go param -> Gallina binder type
-	vars    map[string]*rvar  // key: Go spelling (e.Certificate, s, f)
-	structs map[string]ast.Expr
-	helpers map[string]bool
-	loops   []string
-	nk      int
+	fset        *token.FileSet
+	name        string
+	params      map[string]bool
+	usedPar     map[string]string // Go param -> Gallina binder type
+	vars        map[string]*rvar  // key: Go spelling (e.Certificate, s, f)
+	structs     map[string]ast.Expr
+	helpers     map[string]bool
+	structNames map[string]bool
+	loops       []string
+	nk          int
 }
 
 func (t *rtr) fail(n ast.Node, msg string) {
@@ -328,6 +331,9 @@ func (t *rtr) seq(list []ast.Stmt, k string, top bool, cont *string) string {
 			if len(vs.Values) != 0 || vs.Type == nil {
 				return unsupported("var with initialiser")
 			}
+			if id, ok := vs.Type.(*ast.Ident); ok && t.structNames[id.Name] {
+				continue // a local struct value: its fields are variables that start at their zero values
+			}
 			typ, zero, alen := t.typeInfo(vs.Type)
 			for _, nm := range vs.Names {
 				v := t.vars[nm.Name]
@@ -503,7 +509,7 @@ func findStart(fset *token.FileSet, body *ast.BlockStmt) []ast.Stmt {
 
 func translateReader(out *bytes.Buffer, fset *token.FileSet, file *ast.File, fd *ast.FuncDecl, path, name string) {
 	t := &rtr{fset: fset, name: name, params: map[string]bool{}, usedPar: map[string]string{}, vars: map[string]*rvar{},
-		structs: map[string]ast.Expr{}, helpers: map[string]bool{}}
+		structs: map[string]ast.Expr{}, helpers: map[string]bool{}, structNames: map[string]bool{}}
 	// struct fields of the file (a field name must be unique across the file's structs to be used)
 	dup := map[string]bool{}
 	for _, d := range file.Decls {
@@ -513,6 +519,7 @@ func translateReader(out *bytes.Buffer, fset *token.FileSet, file *ast.File, fd 
 		}
 		for _, sp := range gd.Specs {
 			if st, ok := sp.(*ast.TypeSpec).Type.(*ast.StructType); ok {
+				t.structNames[sp.(*ast.TypeSpec).Name.Name] = true
 				for _, f := range st.Fields.List {
 					for _, nm := range f.Names {
 						if _, seen := t.structs[nm.Name]; seen {
